@@ -15,7 +15,8 @@ RULE = ("writers (sweep of 6 designs, NSGA-II 4x3 serial, NSGA-II 6x3 with 3 wor
         "default thread-safe mode, created before crash points start counting, are killed (a) by os._exit at the k-th Python-level "
         "event: every sqlite3 connect, the moment before/after every execute and commit, objective entry/exit, return of every "
         "synchronisation (quick: every 3rd event of the serial writers, every 5th of the others; thorough: every event); (b) by "
-        "SIGKILL from the parent at seeded wall-clock instants; (c, thorough) by strace-injected SIGKILL at the k-th "
+        "SIGKILL from the parent at seeded wall-clock instants; (b2) by the kernel (SIGXFSZ via RLIMIT_FSIZE) inside the write() that "
+        "grows the database file, i.e. strictly inside a commit, leaving a hot journal; (c, thorough) by strace-injected SIGKILL at the k-th "
         "pwrite64/unlink/ftruncate syscall, i.e. inside SQLite's commit. Each death is followed by a post-mortem: view opens, "
         "definitions intact, every returned synchronisation present with matching costs, no partial row, integrity_check ok. "
         "non-trivial = death after at least one row was written; distinct = distinct (writer, instrument, crash point)")
@@ -41,7 +42,7 @@ def _paths(tag):
     return d, os.path.join(d, "store.sqlite"), os.path.join(d, "ret.log")
 
 
-def fork_writer(kind, path, retlog, kill_at=None, count_file=None, ready_fd=None):
+def fork_writer(kind, path, retlog, kill_at=None, count_file=None, ready_fd=None, fsize_extra=None):
     """returns child pid.  Child exits 77 when it killed itself at event kill_at, 0 when the writer completed."""
     sys.stdout.flush()
     pid = os.fork()
@@ -50,19 +51,35 @@ def fork_writer(kind, path, retlog, kill_at=None, count_file=None, ready_fd=None
     code = 3
     try:
         n = [0]
+        commits = [0]
 
         def on_event(k):
             n[0] += 1
             if kill_at is not None and n[0] == kill_at:
                 os._exit(77)
+            if k == "sql:commit:before":
+                commits[0] += 1
+                if fsize_extra is not None and commits[0] == fsize_extra[0]:
+                    # from now on the kernel kills the writer (SIGXFSZ) inside the first write() that reaches beyond the
+                    # limit: "low" = one page (dies while writing the rollback journal or the first database page of this
+                    # commit), "high" = the last page of the database file (dies after the journal is complete and part of
+                    # the database pages are written) -- either way strictly inside SQLite's commit
+                    import resource
+                    resource.setrlimit(resource.RLIMIT_CORE, (0, 0))
+                    signal.signal(signal.SIGXFSZ, signal.SIG_DFL)
+                    soft, hard = resource.getrlimit(resource.RLIMIT_FSIZE)
+                    size = os.path.getsize(path)
+                    lim = 4096 if fsize_extra[1] == "low" else max(4096, size - 4096) if fsize_extra[1] == "high" else max(4096, size // 2)
+                    resource.setrlimit(resource.RLIMIT_FSIZE, (lim, hard))
 
         def marker():
             if ready_fd is not None:
                 os.write(ready_fd, b"R")
+            pass
         crash.run_writer(kind, path, retlog, SEED, on_event=on_event, marker=marker)
         if count_file:
             with open(count_file, "w") as f:
-                f.write(str(n[0]))
+                f.write("%d %d" % (n[0], commits[0]))
         code = 0
     except BaseException:
         import traceback
@@ -88,6 +105,7 @@ def wait(pid, timeout=120):
 
 
 _CAL = {}
+_NCOMMIT = {}
 
 
 def calibrate(kind):
@@ -98,9 +116,10 @@ def calibrate(kind):
         t0 = time.time()
         rc = wait(fork_writer(kind, path, retlog, count_file=cf), timeout=25)
         dur = time.time() - t0
-        n = int(open(cf).read()) if rc == 0 and os.path.exists(cf) else 0
+        n, ncommit = (map(int, open(cf).read().split())) if rc == 0 and os.path.exists(cf) else (0, 0)
         shutil.rmtree(d, ignore_errors=True)
         _CAL[kind] = (n, dur)
+        _NCOMMIT[kind] = ncommit
     return _CAL[kind]
 
 
@@ -116,6 +135,11 @@ def cases(ctx):
         for k in range(1 + off, total + 1 + (10 if kind == "nsga2_threads" else 0), step):
             yield "pyevent", {"writer": kind, "k": k, "total": total}
         yield "complete", {"writer": kind}
+    for kind in ("sweep", "nsga2", "epsmoea"):
+        calibrate(kind)
+        for i in range(1, _NCOMMIT.get(kind, 0) + 1, ctx.pick(2, 1)):
+            for mode in ("low", "high", "mid"):
+                yield "fsize", {"writer": kind, "commit": i, "mode": mode}
     rr = ctx.rng("kill")
     for i in range(ctx.pick(100, 800)):
         kind = ["nsga2_threads", "nsga2_threads", "epsmoea", "sweep", "nsga2"][i % 5]
@@ -200,6 +224,33 @@ def run_case(ctx, name, params):
                             "returned_syncs": len(crash.read_retlog(retlog))}, "kill_" + kind, 1)
         finally:
             os.close(r_)
+            shutil.rmtree(d, ignore_errors=True)
+    elif name == "fsize":
+        _preimport()
+        d, path, retlog = _paths("fs-%s-%d-%s" % (kind, params["commit"], params["mode"]))
+        try:
+            rc = wait(fork_writer(kind, path, retlog, fsize_extra=(params["commit"], params["mode"])), timeout=120)
+            wit = lambda extra=None: {"writer": kind, "instrument": "rlimit_fsize", "armed_at_commit": params["commit"],
+                                      "limit": params["mode"], "child_exit": rc, "extra": extra}
+            if rc is None:
+                ctx.not_reached("writer %s under RLIMIT_FSIZE did not finish" % kind)
+                return
+            ctx.count("crash_children")
+            if rc == -signal.SIGXFSZ:
+                ctx.count("deaths_inside_file_growing_write")
+                if os.path.exists(path + "-journal"):
+                    ctx.count("deaths_leaving_a_hot_journal")
+            elif rc == 3:
+                ctx.count("writers_failed_with_EFBIG")     # the limit hit a write outside SQLite (counted, still post-mortemed)
+            else:
+                ctx.count("writers_completed")
+            if crash.verify(ctx, path, retlog, wit):
+                if rc == -signal.SIGXFSZ:
+                    ctx.nontrivial((kind, "fsize", params["commit"], params["mode"]))
+                ctx.count("cases")
+                ctx.sample({"writer": kind, "instrument": "rlimit_fsize", "armed_at_commit": params["commit"], "limit": params["mode"], "child_exit": rc,
+                            "returned_syncs": len(crash.read_retlog(retlog))}, "fsize_" + kind, 1)
+        finally:
             shutil.rmtree(d, ignore_errors=True)
     elif name == "strace":
         run_strace(ctx, kind, params["syscall"], params["part"], params["parts"])
@@ -295,5 +346,7 @@ def requirements(ctx):
     ctx.require("deaths_at_python_events", 80)
     ctx.require("returned_syncs_checked", 500)
     ctx.require("deaths_by_sigkill", 10)
+    ctx.require("deaths_inside_file_growing_write", 20)
+    ctx.require("deaths_leaving_a_hot_journal", 5)
     if ctx.tier == "thorough" and not ctx.counters.get("strace_unavailable"):
         ctx.require("deaths_inside_syscalls", 20)
